@@ -197,3 +197,17 @@ PROPS["C16"] = {
         {"bin": "c16", "quick": {"cases": 2500, "workers": 16, "budget": 200}, "thorough": {"cases": 20000, "workers": 16, "budget": 1500}},
     ],
 }
+
+PROPS["C15"] = {
+    "level": "fault_enumeration",
+    "engine": "enumeration",
+    "technique": "systematic fault injection: enumeration of every virtual-I/O callback index x fault kind x persistence for fixed workloads, with containment invariants as the oracle",
+    "rule": "42 representative formats (one per container and per codec family) x workloads {write 3 blocks + header update + close, open-read-seek-read-query-close on a file with metadata chunks, rdwr read/append/reread where supported}: the fault-free run counts K callbacks; cells = fault point i in 1..K x kind {zero-length transfer, short transfer, seek failure, length answer +4096 / -17 / huge} x {single-shot, persistent from i}; both tiers enumerate all cells (the whole grid costs a few seconds); each (format, workload) group runs in a forked child that announces a cell before executing it, a hang ends the child through the I/O work budget (300000 callbacks) and is attributed to that cell; "
+            "oracle per cell: every call returns, counts within [0, requested], the internal position moved by exactly the returned count, seek returns target or -1, invariants hook clean, failing open returns NULL with an error, descriptor set unchanged, audio bytes accepted before the fault equal either the snapshot at the fault or the fault-free file, LeakSanitizer clean (per group, per cell on re-run when a group leaks); non-trivial = the fault was actually consumed (counted; cells are distinct by construction)",
+    "assumptions": BASE_ASSUME + ["faults stay inside the SF_VIRTUAL_IO contract (returns in [0, requested], seek -1); OS-level errors on descriptors (ENOSPC, EBADF) are not injected in this version",
+                                  "'accepted data not corrupted' is checked for the write workload on the audio region behind the header size observed after a fault-free open"],
+    "exhaustive": True,
+    "stages": [
+        {"bin": "c15", "quick": {"cases": 0, "workers": 16, "budget": 400}, "thorough": {"cases": 0, "workers": 16, "budget": 2400}},
+    ],
+}
